@@ -647,7 +647,7 @@ func checkTargetPlumbing(c *Ctx) {
 			}
 		}
 	}
-	R.Floor("R19.3:constructor-calls", n, 4)
+	R.Floor("R19.3:constructor-calls", n, 3)
 	// the captured target really is parseTarget's result
 	f := c.P.Func("traceroute.runTracerouteOnce")
 	if f != nil {
@@ -666,7 +666,7 @@ func checkTargetPlumbing(c *Ctx) {
 				}
 			}
 		}
-		R.Floor("R19.3:parseTarget-calls", cnt, 3)
+		R.Floor("R19.3:parseTarget-calls", cnt, 2)
 	}
 }
 
